@@ -1,8 +1,14 @@
 /-
 C16 - fixed-point conversion saturates, is monotone and inverts exactly.
-Property theorems about the model RigModel/Model/C16.lean (helper lemmas in Lemmas/C16.lean).
-The specification predicates (`SpecFp`, `SpecFix`, `SpecMono`, `Exact53`) are the ones the
-harness evaluates on the implementation's outputs.
+Property theorems about the model RigModel/Model/C16.lean.  Helper lemmas and the definitions of
+the hypotheses (`Fmt.Ok`, `FiniteScaled`, `InverseDomain`, `IsDouble`, `ArrayDomain`, `FixOk`,
+`clamp`) are in Lemmas/C16.lean.  The specification predicates (`SpecFp`, `SpecFix`, `SpecMono`,
+`Exact53`, in the model file) are the ones the harness evaluates on the implementation's outputs.
+
+Reading guide:  v = (m, e) is the double m * 2^e;  scaledNum / scaledDen is the exact scaled value
+v * 2^n_frac as a fraction;  `floatToFp` = float_to_fp, `npFloatToFix` = NumpyFloatToFixConverter
+(pinned code), `npFloatToFixRepaired` (after fixes/c16-saturate-64bit.diff), `floatToFix` =
+deprecated float_to_fix, `fixToFloat` = deprecated fix_to_float, `fpToFloat` = fp_to_float.
 -/
 import RigModel.Lemmas.C16
 set_option linter.unusedSimpArgs false
@@ -18,15 +24,6 @@ theorem dtypes_cover :
     (∀ t ∈ dtypeTable, t.2.2 = (if t.1 then "int" else "uint") ++ toString t.2.1) := by
   decide
 
-/-- the clamp used by the code -/
-def clamp (fmt : Fmt) (t : Int) : Int := max (min fmt.maxV t) fmt.minV
-
-/-- the exact scaled value lies in the finite range of doubles -/
-def FiniteScaled (fmt : Fmt) (v : Dy) : Prop := magLt v.m (v.e + fmt.frac) 1024 = true
-
-/-- the format is one `float_to_fp` accepts -/
-def Fmt.Ok (fmt : Fmt) : Prop := ¬ (fmt.signed = true ∧ fmt.bits = 0) ∧ fmt.frac < 1024
-
 theorem fp_total (fmt : Fmt) (v : Dy) (hf : fmt.Ok) (hv : FiniteScaled fmt v) :
     floatToFp fmt v = .ok (clamp fmt (truncScaled v.m (v.e + fmt.frac))) := by
   obtain ⟨h1, h2⟩ := hf
@@ -36,60 +33,6 @@ theorem fp_total (fmt : Fmt) (v : Dy) (hf : fmt.Ok) (hv : FiniteScaled fmt v) :
     cases hs : fmt.signed <;> simp_all
   have b : ¬ (1024 ≤ fmt.frac) := by omega
   simp [a, b, hv]
-
-theorem fp_ok_inv {fmt : Fmt} {v : Dy} {r : Int} (h : floatToFp fmt v = .ok r) :
-    fmt.Ok ∧ FiniteScaled fmt v ∧ r = clamp fmt (truncScaled v.m (v.e + fmt.frac)) := by
-  unfold floatToFp at h
-  split at h
-  · cases h
-  · split at h
-    · cases h
-    · split at h
-      · cases h
-      · rename_i a b c
-        injection h with h
-        refine ⟨⟨?_, by omega⟩, ?_, h.symm⟩
-        · intro ⟨x, y⟩; simp [x, y] at a
-        · unfold FiniteScaled; simpa using c
-
-theorem clamp_spec (fmt : Fmt) (v : Dy) (t : Int)
-    (ht : IsTrunc t (scaledNum fmt v) (scaledDen fmt v)) : SpecFp fmt v (clamp fmt t) := by
-  have hd : 0 < scaledDen fmt v := den_pos _
-  have hM := maxV_nonneg fmt
-  have hm := minV_nonpos fmt
-  obtain ⟨a, b⟩ := ht
-  unfold SpecFp clamp
-  simp only
-  generalize scaledNum fmt v = n at *
-  generalize scaledDen fmt v = d at *
-  generalize fmt.maxV = M at *
-  generalize fmt.minV = m at *
-  split
-  · rename_i h
-    have hn : 0 ≤ n := by nlinarith
-    obtain ⟨x1, x2⟩ := a hn
-    have : M + 1 < t + 1 := by nlinarith
-    omega
-  · split
-    · rename_i h1 h
-      have hn : n < 0 := by nlinarith
-      obtain ⟨x1, x2⟩ := b hn
-      have : t - 1 < m - 1 := by nlinarith
-      omega
-    · rename_i h1 h2
-      rw [not_le] at h1 h2
-      have : m ≤ t ∧ t ≤ M := by
-        rcases lt_or_ge n 0 with hn | hn
-        · obtain ⟨x1, x2⟩ := b hn
-          have : m - 1 < t := by nlinarith
-          have : t - 1 < 0 := by nlinarith
-          omega
-        · obtain ⟨x1, x2⟩ := a hn
-          have : t < M + 1 := by nlinarith
-          have : 0 < t + 1 := by nlinarith
-          omega
-      have e : max (min M t) m = t := by omega
-      rw [e]; exact ⟨a, b⟩
 
 /-- **Saturation formula.** -/
 theorem fp_sat (fmt : Fmt) (v : Dy) (r : Int) (h : floatToFp fmt v = .ok r) : SpecFp fmt v r := by
@@ -152,13 +95,6 @@ theorem exact53_of_small (k : Int) (h : k.natAbs ≤ 2 ^ 53) : Exact53 k := by
   · have : k.natAbs = 2 ^ 53 := by omega
     rcases Int.natAbs_eq k with e | e <;> rw [this] at e <;> rw [e] <;> decide
 
-
-/-- `2.0**(-n_frac)` exists, and `k` and `k * 2^-frac` are finite as doubles (no overflow in `fp_to_float`) -/
-def InverseDomain (fmt : Fmt) (k : Int) : Prop :=
-  -1024 < fmt.frac ∧ magLt k 0 1024 = true ∧ magLt k (-fmt.frac) 1024 = true
-
-theorem tdiv_one' (a : Int) : a.tdiv 1 = a := by simp
-
 /-- **Inverse.** every in-range fixed-point value that a double holds exactly survives
 `fp_to_float` followed by `float_to_fp` unchanged. -/
 theorem fp_inverse (fmt : Fmt) (k : Int) (hf : fmt.Ok) (hlo : fmt.minV ≤ k) (hhi : k ≤ fmt.maxV)
@@ -217,9 +153,6 @@ theorem fp_inverse (fmt : Fmt) (k : Int) (hf : fmt.Ok) (hlo : fmt.minV ≤ k) (h
       have : clamp fmt k = k := by unfold clamp; omega
       rw [this]
 
-instance (f : Fmt) : Decidable f.Ok := by unfold Fmt.Ok; infer_instance
-instance (f : Fmt) (k : Int) : Decidable (InverseDomain f k) := by unfold InverseDomain; infer_instance
-
 example : (⟨true, 64, 32⟩ : Fmt).Ok ∧ (⟨true, 64, 32⟩ : Fmt).minV ≤ 2 ^ 40 + 1 ∧
     (2 ^ 40 + 1 : Int) ≤ (⟨true, 64, 32⟩ : Fmt).maxV ∧ Exact53 (2 ^ 40 + 1) ∧
     InverseDomain ⟨true, 64, 32⟩ (2 ^ 40 + 1) := by decide +kernel
@@ -232,296 +165,6 @@ theorem inverse_counterexample :
       | .inf _ => .error .overflowInt) = .ok (2 ^ 53) ∧
     (⟨true, 64, 0⟩ : Fmt).minV ≤ 2 ^ 53 + 1 ∧ (2 ^ 53 + 1 : Int) ≤ (⟨true, 64, 0⟩ : Fmt).maxV ∧
     ¬ Exact53 (2 ^ 53 + 1) := by decide +kernel
-
-/-- integer value of a dyadic bound with non-negative exponent -/
-def Dy.intVal (b : Dy) : Int := b.m * 2 ^ b.e.toNat
-
-theorem num_den_int (b : Dy) (hb : 0 ≤ b.e) : num b.m b.e = b.intVal ∧ den b.e = 1 := by
-  unfold num den Dy.intVal; simp [hb]
-
-theorem le_int_iff (d b : Dy) (hb : 0 ≤ b.e) : Dy.le d b ↔ num d.m d.e ≤ b.intVal * den d.e := by
-  have := cross_iff_le d b 0
-  simp only [Int.add_zero] at this
-  rw [(num_den_int b hb).1, (num_den_int b hb).2, Int.mul_one] at this
-  exact this.symm
-
-theorem int_le_iff (d b : Dy) (hb : 0 ≤ b.e) : Dy.le b d ↔ b.intVal * den d.e ≤ num d.m d.e := by
-  have := cross_iff_le b d 0
-  simp only [Int.add_zero] at this
-  rw [(num_den_int b hb).1, (num_den_int b hb).2, Int.mul_one] at this
-  exact this.symm
-
-theorem int_le_int (a b : Dy) (ha : 0 ≤ a.e) (hb : 0 ≤ b.e) : Dy.le a b ↔ a.intVal ≤ b.intVal := by
-  rw [le_int_iff a b hb, (num_den_int a ha).1, (num_den_int a ha).2, Int.mul_one]
-
-theorem trunc_int (b : Dy) (hb : 0 ≤ b.e) : truncScaled b.m b.e = b.intVal := by
-  unfold truncScaled; rw [(num_den_int b hb).1, (num_den_int b hb).2]; simp
-
-/-- clipping between integer bounds then truncating = truncating then clamping -/
-theorem clip_trunc (d lo hi : Dy) (hlo : 0 ≤ lo.e) (hhi : 0 ≤ hi.e)
-    (hL0 : lo.intVal ≤ 0) (hH0 : 0 ≤ hi.intVal) :
-    truncScaled (minD (maxD d lo) hi).m (minD (maxD d lo) hi).e
-      = max (min hi.intVal (truncScaled d.m d.e)) lo.intVal := by
-  have hd := den_pos d.e
-  have ht := tdiv_isTrunc (num d.m d.e) (den d.e) hd
-  obtain ⟨a, b⟩ := ht
-  have hlh : Dy.le lo hi := (int_le_int lo hi hlo hhi).mpr (by omega)
-  unfold maxD
-  by_cases h1 : Dy.le d lo
-  · simp only [h1, if_true]
-    unfold minD; simp only [hlh, if_true]
-    rw [trunc_int lo hlo]
-    rw [le_int_iff d lo hlo] at h1
-    have : truncScaled d.m d.e ≤ lo.intVal := by
-      unfold truncScaled
-      rcases lt_or_ge (num d.m d.e) 0 with hn | hn
-      · obtain ⟨x1, x2⟩ := b hn
-        have : (num d.m d.e).tdiv (den d.e) - 1 < lo.intVal := by nlinarith
-        omega
-      · obtain ⟨x1, x2⟩ := a hn
-        nlinarith
-    omega
-  · simp only [h1, if_false]
-    unfold minD
-    rw [le_int_iff d lo hlo, not_le] at h1
-    have hge : lo.intVal ≤ truncScaled d.m d.e := by
-      unfold truncScaled
-      rcases lt_or_ge (num d.m d.e) 0 with hn | hn
-      · obtain ⟨x1, x2⟩ := b hn
-        have : lo.intVal < (num d.m d.e).tdiv (den d.e) := by nlinarith
-        omega
-      · obtain ⟨x1, x2⟩ := a hn
-        have : 0 < (num d.m d.e).tdiv (den d.e) + 1 := by nlinarith
-        omega
-    by_cases h2 : Dy.le d hi
-    · simp only [h2, if_true]
-      rw [le_int_iff d hi hhi] at h2
-      have : truncScaled d.m d.e ≤ hi.intVal := by
-        unfold truncScaled
-        rcases lt_or_ge (num d.m d.e) 0 with hn | hn
-        · obtain ⟨x1, x2⟩ := b hn
-          have : (num d.m d.e).tdiv (den d.e) - 1 < 0 := by nlinarith
-          omega
-        · obtain ⟨x1, x2⟩ := a hn
-          nlinarith
-      omega
-    · simp only [h2, if_false]
-      rw [trunc_int hi hhi]
-      rw [le_int_iff d hi hhi, not_le] at h2
-      have : hi.intVal ≤ truncScaled d.m d.e := by
-        unfold truncScaled
-        have hn : 0 ≤ num d.m d.e := by nlinarith
-        obtain ⟨x1, x2⟩ := a hn
-        have : hi.intVal < (num d.m d.e).tdiv (den d.e) + 1 := by nlinarith
-        omega
-      omega
-
-
-/-- the clip bounds of the array converter as doubles: exact at the lower end; at the upper end
-exact for 8/16/32 bits and rounded UP by one for 64 bits -/
-theorem np_bounds (fmt : Fmt) (hb : npBits.contains fmt.bits = true) :
-    0 ≤ (round53 fmt.minV).e ∧ 0 ≤ (round53 fmt.maxV).e ∧ (round53 fmt.minV).intVal = fmt.minV ∧
-    (if fmt.bits = 64 then (round53 fmt.maxV).intVal = fmt.maxV + 1
-      else (round53 fmt.maxV).intVal = fmt.maxV) := by
-  obtain ⟨s, b, f⟩ := fmt
-  have hb' : b = 8 ∨ b = 16 ∨ b = 32 ∨ b = 64 := by
-    have : npBits = [8, 16, 32, 64] := by decide
-    rw [this] at hb; simpa using hb
-  have e1 : Fmt.maxV ⟨s, b, f⟩ = Fmt.maxV ⟨s, b, 0⟩ := rfl
-  have e2 : Fmt.minV ⟨s, b, f⟩ = Fmt.minV ⟨s, b, 0⟩ := rfl
-  rw [e1, e2]
-  show _ ∧ _ ∧ _ ∧ (if b = 64 then _ else _)
-  rcases hb' with rfl | rfl | rfl | rfl <;> cases s <;> decide +kernel
-
-/-- a double: 53-bit significand -/
-def IsDouble (v : Dy) : Prop := v.m.natAbs ≤ 2 ^ 53
-instance (v : Dy) : Decidable (IsDouble v) := by unfold IsDouble; infer_instance
-
-theorem isTrunc_zero {m D : Int} (h : |m| < D) : IsTrunc 0 m D := by
-  have := abs_lt.mp h
-  constructor <;> intro _ <;> constructor <;> omega
-
-theorem rne_abs_le (m : Int) (s : Nat) : |rne m s| ≤ |m| + 1 := by
-  unfold rne
-  simp only
-  have hD : (0 : Int) < 2 ^ s := by positivity
-  generalize (2 : Int) ^ s = D at *
-  have h1 : m / D * D ≤ m := Int.ediv_mul_le m (by omega)
-  have h2 : m < (m / D + 1) * D := Int.lt_ediv_add_one_mul_self m hD
-  have hq : |m / D| ≤ |m| := by
-    rw [abs_le]
-    rcases lt_or_ge m 0 with hm | hm
-    · rw [abs_of_neg hm]; constructor <;> nlinarith
-    · rw [abs_of_nonneg hm]; constructor <;> nlinarith
-  have hq1 : |m / D + 1| ≤ |m| + 1 := by
-    have := abs_add_le (m / D) 1
-    simp at this; omega
-  split
-  · omega
-  · split
-    · exact hq1
-    · split
-      · omega
-      · exact hq1
-
-theorem pow1074 : (2 : Int) ^ 53 + 1 < 2 ^ 1074 := by
-  have : (2 : Int) ^ 1074 = 2 ^ 54 * 2 ^ 1020 := by rw [← pow_add]
-  have h : (1 : Int) ≤ 2 ^ 1020 := one_le_pow₀ (by norm_num)
-  rw [this]
-  generalize (2 : Int) ^ 1020 = X at h
-  norm_num
-  omega
-
-/-- the scaled double used by the array path truncates to the same integer as the exact
-scaled value (underflow rounds to something still below 1 in magnitude) -/
-theorem toDouble_trunc (m k : Int) (hfin : magLt m k 1024 = true) (hm : m.natAbs ≤ 2 ^ 53) :
-    ∃ d, toDouble m k = .fin d ∧ truncScaled d.m d.e = truncScaled m k := by
-  unfold toDouble
-  by_cases h0 : m = 0
-  · refine ⟨⟨0, 0⟩, by simp [h0], ?_⟩
-    subst h0; unfold truncScaled num; simp
-  · simp only [h0, if_false, hfin, Bool.not_true]
-    by_cases hk : -1074 ≤ k
-    · exact ⟨⟨m, k⟩, by simp [hk], rfl⟩
-    · refine ⟨⟨rne m (-1074 - k).toNat, -1074⟩, by simp [hk], ?_⟩
-      have habs : |m| ≤ 2 ^ 53 := by
-        rw [Int.abs_eq_natAbs]; exact_mod_cast hm
-      have hr := rne_abs_le m (-1074 - k).toNat
-      have e1 : truncScaled (rne m (-1074 - k).toNat) (-1074) = 0 := by
-        unfold truncScaled
-        refine isTrunc_unique (den_pos _) (tdiv_isTrunc _ _ (den_pos _)) (isTrunc_zero ?_)
-        have : num (rne m (-1074 - k).toNat) (-1074) = rne m (-1074 - k).toNat := by unfold num; simp
-        rw [this]
-        have : den (-1074) = 2 ^ 1074 := by unfold den; simp
-        rw [this]
-        have := pow1074; omega
-      have e2 : truncScaled m k = 0 := by
-        unfold truncScaled
-        refine isTrunc_unique (den_pos _) (tdiv_isTrunc _ _ (den_pos _)) (isTrunc_zero ?_)
-        have hk' : ¬ (0 ≤ k) := by omega
-        have : num m k = m := by unfold num; simp [hk']
-        rw [this]
-        have : den k = 2 ^ (-k).toNat := by unfold den; simp [hk']
-        rw [this]
-        have h1 : (2 : Int) ^ 1074 ≤ 2 ^ (-k).toNat := pow_le_pow_right₀ (by norm_num) (by omega)
-        have := pow1074; omega
-      rw [e1, e2]
-
-
-/-- the part of `NumpyFloatToFixConverter.__call__` after the scaling -/
-def npBody (rep : Bool) (fmt : Fmt) (x : FloatR) : Cast :=
-  let hi := round53 fmt.maxV
-  let saturated := rep && x.ge hi
-  let c := clipF x (round53 fmt.minV) hi
-  let c := if saturated then ⟨0, 0⟩ else c
-  let t := truncScaled c.m c.e
-  let cast := if fmt.minV ≤ t ∧ t ≤ fmt.maxV then Cast.val t else Cast.unspecified
-  if saturated then .val fmt.maxV else cast
-
-theorem npBody_pinned (fmt : Fmt) (d : Dy) (hb : npBits.contains fmt.bits = true)
-    (hle : fmt.bits = 64 → truncScaled d.m d.e ≤ fmt.maxV) :
-    npBody false fmt (.fin d) = .val (clamp fmt (truncScaled d.m d.e)) := by
-  obtain ⟨b1, b2, b3, b4⟩ := np_bounds fmt hb
-  have hM := maxV_nonneg fmt
-  have hm := minV_nonpos fmt
-  unfold npBody
-  simp only [Bool.false_and, Bool.false_eq_true, if_false, clipF]
-  rw [clip_trunc d _ _ b1 b2 (by omega) (by split at b4 <;> omega), b3]
-  unfold clamp
-  generalize truncScaled d.m d.e = t at *
-  split at b4
-  · rename_i h64
-    have := hle h64
-    rw [b4]
-    have e : max (min (fmt.maxV + 1) t) fmt.minV = max (min fmt.maxV t) fmt.minV := by omega
-    rw [e, if_pos (by omega)]
-  · rw [b4, if_pos (by omega)]
-
-theorem npBody_repaired (fmt : Fmt) (d : Dy) (hb : npBits.contains fmt.bits = true) :
-    npBody true fmt (.fin d) = .val (clamp fmt (truncScaled d.m d.e)) := by
-  obtain ⟨b1, b2, b3, b4⟩ := np_bounds fmt hb
-  have hM := maxV_nonneg fmt
-  have hm := minV_nonpos fmt
-  have hH : fmt.maxV ≤ (round53 fmt.maxV).intVal ∧ (round53 fmt.maxV).intVal ≤ fmt.maxV + 1 := by
-    split at b4 <;> omega
-  have hd := den_pos d.e
-  obtain ⟨a, b⟩ := tdiv_isTrunc (num d.m d.e) (den d.e) hd
-  unfold npBody
-  simp only [Bool.true_and, FloatR.ge, clipF]
-  by_cases hs : Dy.le (round53 fmt.maxV) d
-  · simp only [hs, decide_true, if_true]
-    rw [int_le_iff d _ b2] at hs
-    have hn : 0 ≤ num d.m d.e := by nlinarith
-    obtain ⟨x1, x2⟩ := a hn
-    have : (round53 fmt.maxV).intVal < truncScaled d.m d.e + 1 := by unfold truncScaled; nlinarith
-    unfold clamp
-    have e : max (min fmt.maxV (truncScaled d.m d.e)) fmt.minV = fmt.maxV := by omega
-    rw [e]
-  · simp only [hs, decide_false, Bool.false_eq_true, if_false]
-    rw [clip_trunc d _ _ b1 b2 (by omega) (by omega), b3]
-    rw [int_le_iff d _ b2, not_le] at hs
-    have hlt : truncScaled d.m d.e < (round53 fmt.maxV).intVal := by
-      unfold truncScaled
-      rcases lt_or_ge (num d.m d.e) 0 with hn | hn
-      · obtain ⟨x1, x2⟩ := b hn
-        have : (num d.m d.e).tdiv (den d.e) - 1 < 0 := by nlinarith
-        have hpos : 0 < (round53 fmt.maxV).intVal := by
-          by_contra hc
-          have : (round53 fmt.maxV).intVal * den d.e ≤ 0 := by nlinarith
-          have h0 : fmt.maxV = 0 := by omega
-          -- maxV = 0 is impossible for the widths in npBits
-          obtain ⟨s, bb, f⟩ := fmt
-          have hb' : bb = 8 ∨ bb = 16 ∨ bb = 32 ∨ bb = 64 := by
-            have : npBits = [8, 16, 32, 64] := by decide
-            rw [this] at hb; simpa using hb
-          rcases hb' with rfl | rfl | rfl | rfl <;> cases s <;> simp [Fmt.maxV] at h0
-        omega
-      · obtain ⟨x1, x2⟩ := a hn
-        nlinarith
-    unfold clamp
-    generalize truncScaled d.m d.e = t at *
-    have e : max (min (round53 fmt.maxV).intVal t) fmt.minV = max (min fmt.maxV t) fmt.minV := by omega
-    rw [e, if_pos (by omega)]
-
-
-theorem npBody_pinned_overflow (fmt : Fmt) (d : Dy) (hb : npBits.contains fmt.bits = true)
-    (h64 : fmt.bits = 64) (hgt : fmt.maxV < truncScaled d.m d.e) :
-    npBody false fmt (.fin d) = .unspecified := by
-  obtain ⟨b1, b2, b3, b4⟩ := np_bounds fmt hb
-  have hM := maxV_nonneg fmt
-  have hm := minV_nonpos fmt
-  rw [if_pos h64] at b4
-  unfold npBody
-  simp only [Bool.false_and, Bool.false_eq_true, if_false, clipF]
-  rw [clip_trunc d _ _ b1 b2 (by omega) (by omega), b3, b4]
-  generalize truncScaled d.m d.e = t at *
-  have e : max (min (fmt.maxV + 1) t) fmt.minV = fmt.maxV + 1 := by omega
-  rw [e, if_neg (by omega)]
-
-/-- hypotheses of the array theorems: an accepted width, `2.0**n_frac` exists and is not 0.0,
-the scaled value is finite, the input is a double -/
-structure ArrayDomain (fmt : Fmt) (v : Dy) : Prop where
-  width : npBits.contains fmt.bits = true
-  fracHi : fmt.frac < 1024
-  fracLo : -1074 ≤ fmt.frac
-  finite : FiniteScaled fmt v
-  double : IsDouble v
-
-theorem ArrayDomain.fmtOk {fmt : Fmt} {v : Dy} (h : ArrayDomain fmt v) : fmt.Ok := by
-  refine ⟨?_, h.fracHi⟩
-  intro ⟨_, h0⟩
-  have := h.width
-  rw [h0] at this
-  revert this; decide
-
-theorem np_unfold (rep : Bool) (fmt : Fmt) (v : Dy) (h : ArrayDomain fmt v) :
-    npFloatToFixG rep fmt v = .ok (npBody rep fmt (toDouble v.m (v.e + fmt.frac))) := by
-  have a : ¬ (1024 ≤ fmt.frac) := by have := h.fracHi; omega
-  have b : ¬ (fmt.frac < -1074) := by have := h.fracLo; omega
-  unfold npFloatToFixG npBody pow2f
-  simp only [h.width, Bool.not_true, Bool.false_eq_true, if_false, a, b, bind, Except.bind, pure,
-    Except.pure, mulScale]
-  rfl
 
 /-- **Array = scalar (8, 16 and 32 bits).** The NumPy converter (scale, clip in floating point,
 cast) returns, for every element, exactly what `float_to_fp` returns. -/
@@ -578,12 +221,85 @@ theorem array_eq_scalar_repaired (fmt : Fmt) (v : Dy) (h : ArrayDomain fmt v) :
   rw [np_unfold true fmt v h, hd, npBody_repaired fmt d h.width, ht]
   rfl
 
-instance (fmt : Fmt) (v : Dy) : Decidable (FiniteScaled fmt v) := by unfold FiniteScaled; infer_instance
-example : ArrayDomain ⟨true, 16, 5⟩ ⟨-12345, -7⟩ ∧ (⟨true, 16, 5⟩ : Fmt).bits ≠ 64 :=
-  ⟨⟨by decide, by decide, by decide, by decide +kernel, by decide⟩, by decide⟩
-example : ArrayDomain ⟨true, 64, 0⟩ ⟨1, 100⟩ ∧
-    (⟨true, 64, 0⟩ : Fmt).maxV < truncScaled 1 (100 + 0) :=
-  ⟨⟨by decide, by decide, by decide, by decide +kernel, by decide⟩, by decide +kernel⟩
+/-- **The deprecated converter never trips its assertion** and returns an unsigned word. -/
+theorem deprecated_no_assert (rep : Bool) (fmt : Fmt) (v : Dy) (h : FixOk fmt) :
+    ∃ w, floatToFixG rep fmt v = .ok w ∧ 0 ≤ w ∧ w < 2 ^ fmt.bits := by
+  have hp : (0 : Int) < 2 ^ fmt.bits := by positivity
+  exact ⟨_, fix_closed rep fmt v h, Int.emod_nonneg _ (by omega), Int.emod_lt_of_pos _ hp⟩
 
+/-- **Deprecated = two's complement.** Whenever the float bound of `validate_fp_params` is exact
+(at most 53 integer bits), `float_to_fix` returns `float_to_fp` modulo `2^n_bits`. -/
+theorem deprecated_twos_complement (fmt : Fmt) (v : Dy) (h : FixOk fmt) (h53 : nInt fmt ≤ 53)
+    (hv : FiniteScaled fmt v) :
+    floatToFix fmt v = (floatToFp fmt v).map (· % 2 ^ fmt.bits) := by
+  have hn : nInt fmt < 65 := by omega
+  obtain ⟨f1, f2, f3, f4⟩ := bound_facts (nInt fmt) hn
+  obtain ⟨e1, e2⟩ := maxV_eq fmt h.bits1
+  rw [fp_total fmt v h.fmtOk hv]
+  unfold floatToFix
+  rw [fix_closed false fmt v h]
+  simp only [Bool.false_eq_true, if_false]
+  rw [f4 h53, ← e1]
+  rfl
+
+/-- for the repaired code the same holds for every width up to 64 bits -/
+theorem deprecated_twos_complement_repaired (fmt : Fmt) (v : Dy) (h : FixOk fmt)
+    (hv : FiniteScaled fmt v) :
+    floatToFixRepaired fmt v = (floatToFp fmt v).map (· % 2 ^ fmt.bits) := by
+  have hn : nInt fmt < 65 := by have := h.bits64; unfold nInt; split <;> omega
+  obtain ⟨f1, f2, f3, f4⟩ := bound_facts (nInt fmt) hn
+  obtain ⟨e1, e2⟩ := maxV_eq fmt h.bits1
+  have hm := minV_nonpos fmt
+  have hM := maxV_nonneg fmt
+  rw [fp_total fmt v h.fmtOk hv]
+  unfold floatToFixRepaired
+  rw [fix_closed true fmt v h]
+  simp only [if_true]
+  unfold clamp
+  generalize truncScaled v.m (v.e + fmt.frac) = T
+  have : min (max (min (round53 (2 ^ nInt fmt - 1)).intVal T) fmt.minV) fmt.maxV
+      = max (min fmt.maxV T) fmt.minV := by omega
+  rw [this]; rfl
+
+/-- the defect of the pinned deprecated converter (F9): a large value in the signed 64-bit format
+comes out as the word `2^63` (= -2^63) although `float_to_fp` saturates at `2^63 - 1` -/
+theorem deprecated64_defect :
+    floatToFix ⟨true, 64, 0⟩ ⟨1, 100⟩ = .ok (2 ^ 63) ∧
+    floatToFp ⟨true, 64, 0⟩ ⟨1, 100⟩ = .ok (2 ^ 63 - 1) ∧
+    floatToFix ⟨false, 64, 0⟩ ⟨1, 100⟩ = .ok 0 ∧
+    floatToFp ⟨false, 64, 0⟩ ⟨1, 100⟩ = .ok (2 ^ 64 - 1) ∧
+    ¬ SpecFix ⟨true, 64, 0⟩ ⟨1, 100⟩ (2 ^ 63) := by decide +kernel
+
+example : FixOk ⟨true, 16, 5⟩ ∧ nInt ⟨true, 16, 5⟩ ≤ 53 ∧ FiniteScaled ⟨true, 16, 5⟩ ⟨-12345, -7⟩ :=
+  ⟨⟨by decide, by decide, by decide, by decide⟩, by decide, by decide +kernel⟩
+
+/-- **Deprecated `fix_to_float` = `fp_to_float` on the two's-complement reading of the word.** -/
+theorem fix_to_float_eq (fmt : Fmt) (w : Nat) (h : FixOk fmt) (hw : w < 2 ^ fmt.bits) :
+    fixToFloat fmt w = fpToFloat fmt.frac (ofWord fmt w) := by
+  have hb := h.bits1
+  have hv : (if (fmt.signed && w.testBit (fmt.bits - 1)) = true then (w : Int) - 2 ^ fmt.bits else w)
+      = ofWord fmt w := by
+    unfold ofWord
+    have hs : fmt.bits - 1 + 1 = fmt.bits := by omega
+    by_cases hge : 2 ^ (fmt.bits - 1) ≤ w
+    · have ht : w.testBit (fmt.bits - 1) = true :=
+        Nat.testBit_of_two_pow_le_and_two_pow_add_one_gt hge (by rw [hs]; exact hw)
+      have hge' : (2 : Int) ^ (fmt.bits - 1) ≤ (w : Int) := by exact_mod_cast hge
+      cases fmt.signed <;> simp [ht, hge']
+    · have ht : w.testBit (fmt.bits - 1) = false := Nat.testBit_lt_two_pow (by omega)
+      have hge' : ¬ (2 : Int) ^ (fmt.bits - 1) ≤ (w : Int) := by
+        intro hc; apply hge; exact_mod_cast hc
+      cases fmt.signed <;> simp [ht, hge']
+  have a : ¬ (1024 ≤ -fmt.frac) := by have := h.frac0; omega
+  have b : ¬ (-fmt.frac < -1074) := by
+    have h1 := h.fracLe; have := h.bits64; split at h1 <;> omega
+  unfold fixToFloat fpToFloat pow2f
+  rw [validate_ok fmt h]
+  simp only [bind, Except.bind, a, b, if_false, hv, mulScale]
+  simp only [Int.sub_eq_add_neg]
+
+example : FixOk ⟨true, 8, 4⟩ ∧ (0xf8 : Nat) < 2 ^ (⟨true, 8, 4⟩ : Fmt).bits ∧
+    fixToFloat ⟨true, 8, 4⟩ 0xf8 = .ok (.fin ⟨-8, -4⟩) :=
+  ⟨⟨by decide, by decide, by decide, by decide⟩, by decide, by decide +kernel⟩
 
 end Rig.C16
